@@ -32,6 +32,8 @@ def xmlNsUri : Str :=
   ['h', 't', 't', 'p', ':', '/', '/', 'w', 'w', 'w', '.', 'w', '3', '.', 'o', 'r', 'g', '/', 'X', 'M', 'L', '/',
    '1', '9', '9', '8', '/', 'n', 'a', 'm', 'e', 's', 'p', 'a', 'c', 'e']
 
+theorem xmlNsUri_eq : xmlNsUri = xmlNamespaceUri := rfl
+
 /-- The bindings at the outset (`C02_scope_base`): the empty prefix is bound to no namespace
     (the empty URI), `xml` to the XML namespace. -/
 def baseScope : Scope := [([], []), (['x', 'm', 'l'], xmlNsUri)]
@@ -142,8 +144,9 @@ def NSNode.denote : Scope → NSNode → List NPNode
     [.elem ((scope.push (declsOf attrs)).resolve pfx.text) loc.text (declsOf attrs)
       (attrsOf (scope.push (declsOf attrs)) attrs) []]
   | _, .chars parts => if partsValue parts = [] then [] else [.text (partsValue parts)]
-  | _, .comment text _ => [.comment text.text]
-  | _, .pi target content _ => [.pi target.text (content.map (fun c => c.text))]
+  -- line ends are normalised in comments and processing instructions too (XML 1.0, 2.11)
+  | _, .comment text _ => [.comment (normalizeLineEnds text.text)]
+  | _, .pi target content _ => [.pi target.text (content.map (fun c => normalizeLineEnds c.text))]
 where
   denoteList : Scope → List NSNode → List NPNode
     | _, [] => []
@@ -161,21 +164,25 @@ def noAdjCharsNs : List NSNode → Bool
   | _ => true
 
 /-- The items of a start tag, `scope` being the scope INSIDE the element (own declarations pushed):
-    values well spelled, no prefix declared twice (`DocumentBuilder::prefix`), attributes pairwise
-    different by expanded name (`open_element`; this implies pairwise different as written, the test
-    of `DocumentBuilder::attribute`), every attribute prefix bound. -/
+    values well spelled, no declaration is a reserved one or a prefixed undeclaration
+    (`reservedDecl`, the test of `DocumentBuilder::prefix` on the decoded URI), no prefix declared
+    twice (`DocumentBuilder::prefix`), attributes pairwise different by expanded name
+    (`open_element`; this implies pairwise different as written, the test of
+    `DocumentBuilder::attribute`), every attribute prefix bound. -/
 def attrsWellNs (scope : Scope) (attrs : List NSAttr) : Prop :=
   (∀ a ∈ attrs, WellSpelled a.pieces) ∧
+  (∀ d ∈ declsOf attrs, reservedDecl d.1 d.2 = false) ∧
   ((declsOf attrs).map Prod.fst).Nodup ∧
   ((attrsOf scope attrs).map Prod.fst).Nodup ∧
   (∀ a ∈ ordinary attrs, a.pfx.text ≠ [] → (scope.lookup a.pfx.text).isSome = true)
 
 /-- A spelling is well formed in `scope` (the scope around the node).  This mirrors what the CODE
     accepts; where that is more than Namespaces in XML 1.0 allows it is kept:
-    * `xmlns:p=""` is accepted (binds `p` to no namespace), likewise declarations of the prefixes
-      `xml` and `xmlns` and of the URIs reserved for them: no test in `DocumentBuilder::prefix`;
-      (recorded defects C03:reserved-prefix-or-namespace-rebound-accepted,
-      C03:prefixed-undeclaration-accepted).
+    * the prefix `xml` may be bound to any URI, the empty one included (`reservedDecl` exempts it;
+      recorded defect C03:xml-prefix-rebound-accepted).  Since /repo 6153ddf, a5dcf8e the other
+      reserved declarations (prefix `xmlns`, another prefix for the XML namespace name, anything
+      for the xmlns namespace name) and `xmlns:p=""` are refused; since 002854f a processing
+      instruction with the target `xml` (any letter case) is refused.
     An end tag repeats the start tag's name AS WRITTEN, prefix and local name: `close_element`
     compares the name ids and the written prefixes (`open_prefixes`), so another prefix bound to
     the same URI does not close the element.  Every element prefix must be bound (the empty prefix
@@ -191,7 +198,7 @@ def NSNode.Well : Scope → NSNode → Prop
     ((scope.push (declsOf attrs)).lookup pfx.text).isSome = true
   | _, .chars parts => ∀ p ∈ parts, p.Well
   | _, .comment _ _ => True
-  | _, .pi _ _ _ => True
+  | _, .pi target _ _ => isReservedPiTarget target.text = false
 where
   wellList : Scope → List NSNode → Prop
     | _, [] => True
